@@ -95,26 +95,28 @@ Record pst := {
   s_args : list str;           (* funcopt values, in order *)
   s_ignore : N;
   s_skip : nat;
-  s_num : nat
+  s_num : nat;
+  s_forced : bool              (* force_opt != NULL: parsing a default-value string *)
 }.
 Definition pst0 (state : nat) (o : option optref) : pst :=
-  {| s_state := state; s_comment := None; s_title := None; s_opt := o; s_args := []; s_ignore := 0; s_skip := 0; s_num := 0 |}.
+  {| s_state := state; s_comment := None; s_title := None; s_opt := o; s_args := []; s_ignore := 0; s_skip := 0; s_num := 0;
+     s_forced := match o with Some _ => true | None => false end |}.
 Definition st_state p n := {| s_state := n; s_comment := s_comment p; s_title := s_title p; s_opt := s_opt p; s_args := s_args p;
-  s_ignore := s_ignore p; s_skip := s_skip p; s_num := s_num p |}.
+  s_ignore := s_ignore p; s_skip := s_skip p; s_num := s_num p; s_forced := s_forced p |}.
 Definition st_comment p c := {| s_state := s_state p; s_comment := c; s_title := s_title p; s_opt := s_opt p; s_args := s_args p;
-  s_ignore := s_ignore p; s_skip := s_skip p; s_num := s_num p |}.
+  s_ignore := s_ignore p; s_skip := s_skip p; s_num := s_num p; s_forced := s_forced p |}.
 Definition st_title p t := {| s_state := s_state p; s_comment := s_comment p; s_title := t; s_opt := s_opt p; s_args := s_args p;
-  s_ignore := s_ignore p; s_skip := s_skip p; s_num := s_num p |}.
+  s_ignore := s_ignore p; s_skip := s_skip p; s_num := s_num p; s_forced := s_forced p |}.
 Definition st_opt p o := {| s_state := s_state p; s_comment := s_comment p; s_title := s_title p; s_opt := o; s_args := s_args p;
-  s_ignore := s_ignore p; s_skip := s_skip p; s_num := s_num p |}.
+  s_ignore := s_ignore p; s_skip := s_skip p; s_num := s_num p; s_forced := s_forced p |}.
 Definition st_args p a := {| s_state := s_state p; s_comment := s_comment p; s_title := s_title p; s_opt := s_opt p; s_args := a;
-  s_ignore := s_ignore p; s_skip := s_skip p; s_num := s_num p |}.
+  s_ignore := s_ignore p; s_skip := s_skip p; s_num := s_num p; s_forced := s_forced p |}.
 Definition st_ignore p i := {| s_state := s_state p; s_comment := s_comment p; s_title := s_title p; s_opt := s_opt p; s_args := s_args p;
-  s_ignore := i; s_skip := s_skip p; s_num := s_num p |}.
+  s_ignore := i; s_skip := s_skip p; s_num := s_num p; s_forced := s_forced p |}.
 Definition st_skip p k := {| s_state := s_state p; s_comment := s_comment p; s_title := s_title p; s_opt := s_opt p; s_args := s_args p;
-  s_ignore := s_ignore p; s_skip := k; s_num := s_num p |}.
+  s_ignore := s_ignore p; s_skip := k; s_num := s_num p; s_forced := s_forced p |}.
 Definition st_num p k := {| s_state := s_state p; s_comment := s_comment p; s_title := s_title p; s_opt := s_opt p; s_args := s_args p;
-  s_ignore := s_ignore p; s_skip := s_skip p; s_num := k |}.
+  s_ignore := s_ignore p; s_skip := s_skip p; s_num := k; s_forced := s_forced p |}.
 
 Section WithOracles.
 Variable strtod_o : str -> strtod_res.
@@ -389,6 +391,7 @@ with parse_internal (fuel : nat) (w : pw) (c : cfg) (level : nat) (p : pst) {str
     | TErr => error w c
     | TEof =>
         if negb (Nat.eqb (s_state p) 0) then errd w c "premature end of file"
+        else if negb (Nat.eqb level 0) && negb (s_forced p) then errd w c "missing closing brace for section '%s'"
         else
           let '(w, c) := match s_opt p with Some r => handle_deprecated w c r | None => (w, c) end in
           (w, c, PEOF)
@@ -413,7 +416,10 @@ with parse_internal (fuel : nat) (w : pw) (c : cfg) (level : nat) (p : pst) {str
                   if cflag c CFGF_IGNORE_UNKNOWN then continue w c (st_state (st_opt p None) 10)
                   else if cflag c CFGF_KEYSTRVAL then
                     let '(c1, r) := addopt c name in continue w c1 (st_state (st_opt p (Some r)) 1)
-                  else error w c
+                  else match name with
+                       | [] => errd w c "no such option '%s'"
+                       | _ => error w c
+                       end
               | Some r =>
                   match get_opt c r with
                   | None => error w c
@@ -604,15 +610,19 @@ Fixpoint include_unwind (n : nat) (w : pw) (depth : nat) : pw :=
 Definition big_fuel (w : pw) (extra : nat) : nat := (extra + 64)%nat.
 
 (* cfg_parse_fp(cfg, fp) where fp reads `content` *)
-Definition parse_fp (fuel : nat) (w : pw) (c : cfg) (content : str) : pw * cfg * Z :=
+Definition parse_fp_gen (fuel : nat) (w : pw) (c : cfg) (content : option str) : pw * cfg * Z :=
   let depth := length (l_inc (w_lex w)) in
   let c1 := match c_file c with None => set_file c (Some (M "FILE")) | Some _ => c end in
   let c2 := set_line c1 1 in
-  let w1 := upd_lex w (scan_begin (w_lex w) content) in
+  let w1 := upd_lex w (match content with Some t => scan_begin (w_lex w) t | None => scan_begin_failing (w_lex w) end) in
   let '(w2, c3, rc) := parse_internal fuel w1 c2 0 (pst0 0 None) in
   let w3 := include_unwind (S MAX_INCLUDE_DEPTH) w2 depth in
   let w4 := upd_lex w3 (scan_end (w_lex w3)) in
   (w4, c3, match rc with PERR => CFG_PARSE_ERROR | _ => CFG_SUCCESS end).
+
+Definition parse_fp (fuel : nat) (w : pw) (c : cfg) (content : str) : pw * cfg * Z := parse_fp_gen fuel w c (Some content).
+(* the stream cannot be read (the application opened a directory) *)
+Definition parse_fp_unreadable (fuel : nat) (w : pw) (c : cfg) : pw * cfg * Z := parse_fp_gen fuel w c None.
 
 (* cfg_parse_buf(cfg, buf) *)
 Definition parse_buf (fuel : nat) (w : pw) (c : cfg) (buf : option str) : pw * cfg * Z :=
